@@ -15,12 +15,18 @@ type C07Case struct {
 	Sc Scenario `json:"scenario"`
 	// Pair, when >= 0, adds a second crash that many effect points after the restart (sampled pairs).
 	Pair int `json:"pair"`
+	// Reverse: after the crash the replayed work is taken up newest first (a successor before the
+	// transaction that was interrupted).
+	Reverse bool `json:"reverse"`
+	// Straggler k > 0: the k-th work item replayed after the crash is taken up only when nothing else can run.
+	Straggler int `json:"straggler"`
 }
 
 func genC07(rt *rapid.T) C07Case {
 	sc := genScenario(rt, Profile{MinTargets: 1, MaxTargets: 2, MinSets: 2, MaxSets: 4, MultiTarget: true, Poison: true, Refuse: true, Rollbacks: true,
-		Preempt: 0, Drawn: false, MaxOpsPerTarget: 2})
-	return C07Case{Sc: sc, Pair: rapid.IntRange(-1, 12).Draw(rt, "pair")}
+		Offline: true, Preempt: 0, Drawn: false, MaxOpsPerTarget: 2})
+	return C07Case{Sc: sc, Pair: rapid.IntRange(-1, 12).Draw(rt, "pair"), Reverse: rapid.IntRange(0, 1).Draw(rt, "reverse") == 1,
+		Straggler: max(0, rapid.IntRange(-4, 12).Draw(rt, "straggler"))}
 }
 
 func c07Final(r *Run, label string) error {
@@ -48,6 +54,18 @@ func c07Final(r *Run, label string) error {
 
 func runC07(c C07Case, x *vstat.Ctx) error {
 	x.Sample(describeScenario(c.Sc))
+	if c.Reverse {
+		x.Class("replay-after-crash:newest-first")
+	}
+	if c.Straggler > 0 {
+		x.Class("replay-after-crash:one-straggler")
+	}
+	for _, t := range c.Sc.Targets {
+		if !t.Online {
+			x.Class("a target connects only after all requests (proposals queue up in the apply phase)")
+			break
+		}
+	}
 	// 1. the crash-free run counts the effect points
 	base, err := Execute(x, c.Sc, nil, func(r *Run) { r.Prep = func(w *World) { w.S.RecordEffects = true } })
 	if err != nil {
@@ -89,6 +107,8 @@ func runC07(c C07Case, x *vstat.Ctx) error {
 		r, err := Execute(x, c.Sc, nil, func(r *Run) {
 			r.Prep = func(w *World) {
 				w.S.CrashAt, w.S.CrashMid = p.at, p.mid
+				w.S.ReverseReplay = c.Reverse
+				w.S.DeferReplayed = c.Straggler - 1
 				if c.Pair >= 0 {
 					prev := w.S.OnRestart
 					w.S.OnRestart = func() {
